@@ -238,7 +238,7 @@ TRIPLE_CLASSES = ["random", "random", "random", "del_vs_edit", "del_vs_edit", "i
                   "both_insert_dissimilar", "same_attachment", "same_meta_key", "same_output", "same_line",
                   "minor_diff", "retype", "empty_source", "both_append_outputs", "exec_count", "fixture",
                   "nbmeta_conflict", "out_meta_conflict", "multi_line_meta", "del_vs_transient", "del_vs_transient",
-                  "both_insert_lists", "nul_in_source"]
+                  "both_insert_lists", "nul_in_source", "same_insert_edit_below"]
 
 
 def merge_triple(gen, cls=None, minor=None, plain_eol=False):
@@ -346,6 +346,30 @@ def merge_triple(gen, cls=None, minor=None, plain_eol=False):
         for j, c_ in enumerate(ritems):
             rem["cells"].insert(pos + j, c_)
         info = {"pos": pos, "nlocal": len(litems), "nremote": len(ritems)}
+    elif cls == "same_insert_edit_below":
+        # both sides insert the IDENTICAL line(s) at one place of a source; one side (or both, differently) also edits the
+        # line just below / above the insertion: an agreed insertion and a line patch meet at one line key
+        n = r.choice([3, 4, 6])
+        lines = ["value_%d = %d" % (j, r.randrange(100)) for j in range(n)]
+        fin = r.choice(["\n", "\n", ""])
+        c = gen.cell(m, r.choice(["code", "markdown"]))
+        c["source"] = "\n".join(lines) + fin
+        pos = r.randrange(len(base["cells"]) + 1)
+        for nb in (base, loc, rem):
+            nb["cells"].insert(pos, copy.deepcopy(c))
+        j = r.randrange(n)
+        ins = ["shared = %d" % r.randrange(100)] * r.choice([1, 1, 2])
+        ll, rl = list(lines), list(lines)
+        who = r.choice(["local", "remote", "both"])
+        if who in ("local", "both"):
+            ll[j] = ll[j] + "0"
+        if who in ("remote", "both"):
+            rl[j] = rl[j] + ("0" if r.random() < 0.3 else "7")
+        ll[j:j] = ins
+        rl[j:j] = ins
+        loc["cells"][pos]["source"] = "\n".join(ll) + fin
+        rem["cells"][pos]["source"] = "\n".join(rl) + fin
+        info = {"pos": pos, "line": j, "who_edits": who}
     elif cls == "nul_in_source":
         # a NUL character inside a source (valid JSON, valid notebook): external text tools treat the text as binary
         lines = ["line one of %d" % r.randrange(99), "binary \x00 payload pasted here", "line three", "line four"]
